@@ -419,6 +419,12 @@ async fn execute_async(sc: &Scenario, other_key: &rsa::RsaPublicKey) -> Outcome 
         Event::Call(c) => c.clone(),
         Event::Send(p) => { if let CbPacket::StoreCookie { key, payload } = p { if key == b"passage:authentication" && payload.len() >= 32 { auth_cookie_json = Some(payload[32..].to_vec()); } } p.canonical() }
     }).collect();
+    // a routing call started in the very poll in which already-buffered client input ends the connection is
+    // scheduler-dependent (randomly ordered select!) and without consequence: dropped on both sides
+    let mut ev_str = ev_str;
+    if result.starts_with("err:") && result != "err:adapter" && result != "err:no-target" {
+        if ev_str.last().is_some_and(|l| l == "call:discover" || l.starts_with("call:filter:") || l.starts_with("call:select:")) { ev_str.pop(); }
+    }
     let observed = format!("{} => {}", ev_str.join(";"), result).trim_start().to_string();
     let observed = if undecodable { format!("{observed} [undecodable server bytes]") } else { observed };
 
